@@ -303,6 +303,12 @@ pub fn c06_scenario(rng: &mut Rng, stakes: &[u64], own: u64) -> Vec<Op> {
             _ => { let q = quorum_subset(rng, stakes, 3, 5); let k = rng.range(0, q.len() as u64) as usize; groups.push(vec![Op::Cert { slot: parent.0, kind: CK::NotarFb, hash: parent.1, s1: q[..k].to_vec(), s2: q[k..].to_vec() }]); }
         }
     }
+    // the OTHER block of the parent's slot (an equivocating leader's second block, some children build on it) is
+    // notar-fallback certified as well: two certified blocks in one slot, in either order
+    if rng.chance(1, 5) {
+        let q = quorum_subset(rng, stakes, 3, 5); let k = rng.range(0, q.len() as u64) as usize;
+        groups.push(vec![Op::Cert { slot: parent.0, kind: CK::NotarFb, hash: (s - 1) * 10 + 2, s1: q[..k].to_vec(), s2: q[k..].to_vec() }]);
+    }
     // a finalization GAP: a later slot is fast-finalized while its ancestry is unknown - the slot under test stays
     // undecided and unpruned below the finalized slot, its signals are still due
     if rng.chance(1, 5) {
@@ -313,7 +319,7 @@ pub fn c06_scenario(rng: &mut Rng, stakes: &[u64], own: u64) -> Vec<Op> {
     // block registrations (some blocks stay unknown -> repair request instead of the signal)
     for b in &blocks {
         if rng.chance(5, 6) {
-            let p = if rng.chance(5, 6) { parent } else { (s - 1, (s - 1) * 10 + 2) };
+            let p = if rng.chance(3, 4) { parent } else { (s - 1, (s - 1) * 10 + 2) };
             groups.push(vec![Op::Block { b: *b, p }]);
         }
     }
@@ -364,7 +370,7 @@ pub fn gen_c06(seed: u64, tier: Tier) -> CaseSet {
         tally.add(&outs);
         cases.push(txt);
     }
-    stats.rule = "one slot with 1-3 competing blocks: parent certificate (by notar votes, by mixed notar/notar-fallback votes, or received Notar / NotarFallback / FastFinal certificate, or absent; in a quarter of the cases a further certificate of another kind for the same parent; in a fifth a LATER slot fast-finalized with unknown ancestry, so that the slot under test lies undecided below the finalized slot), block registrations (some missing, some with an uncertified parent), other validators' notar/skip/fallback votes and the own vote, shuffled as groups so that each can arrive last; non-trivial = at least one SafeToNotar/SafeToSkip raised; distinct by full trace".into();
+    stats.rule = "one slot with 1-3 competing blocks: parent certificate (by notar votes, by mixed notar/notar-fallback votes, or received Notar / NotarFallback / FastFinal certificate, or absent; in a quarter of the cases a further certificate of another kind for the same parent; in a fifth the other block of the parent's slot notar-fallback certified too; in a fifth a LATER slot fast-finalized with unknown ancestry, so that the slot under test lies undecided below the finalized slot), block registrations (some missing, some with an uncertified parent), other validators' notar/skip/fallback votes and the own vote, shuffled as groups so that each can arrive last; non-trivial = at least one SafeToNotar/SafeToSkip raised; distinct by full trace".into();
     tally.into_stats(&mut stats);
     finish("pool", 6, cases, descr, sigs, stats)
 }
